@@ -237,6 +237,17 @@ func e2eRun(o *Out, kind string, cfg eCfg, reqs []eReq) {
 			clock = r.Ns
 			timecache.VerifPin(clock)
 			terms = append(terms, fmt.Sprintf("EClock %s", cZ(r.Ns)))
+		case "gc":
+			// one expiry pass of the store between two requests ("every reachable store state")
+			func() {
+				defer func() {
+					if pv := recover(); pv != nil {
+						obs["panic"], obs["panic_value"] = true, fmt.Sprint(pv)
+					}
+				}()
+				_ = memory.VerifGC(store, r.Ns)
+			}()
+			terms = append(terms, fmt.Sprintf("EGc %s", cZ(r.Ns)))
 		case "udp":
 			ip := unhx(r.IP)
 			pkt := unhx(r.Packet)
@@ -521,6 +532,7 @@ func e2eStream(o *Out, rng *rand.Rand, n int) {
 			ihs[i] = make([]byte, 20)
 			rng.Read(ihs[i])
 		}
+		var pastClocks []int64
 		srcs := [][]byte{{192, 0, 2, 7}, {10, 0, 0, 1}, net.ParseIP("2001:db8::1"), net.ParseIP("2001:db8::2"), net.ParseIP("::ffff:192.0.2.9"), {127, 0, 0, 1}}
 		remotes := []string{"192.0.2.7:6881", "10.0.0.1:5", "[2001:db8::1]:6881", "[2001:db8::2]:9", "[::ffff:192.0.2.9]:443", "127.0.0.1:1"}
 		var peers []e2ePeer
@@ -585,6 +597,32 @@ func e2eStream(o *Out, rng *rand.Rand, n int) {
 							opts = append(opts, 1)
 						}
 					}
+					if rng.Intn(2) == 0 {
+						opts = append(opts, 0)
+					}
+				case 3:
+					// URLData of arbitrary bytes: not UTF-8, no leading slash, only a query, stray escapes - whatever the
+					// parser makes of it must come back as ONE well-formed response (and must survive the frontend's
+					// bookkeeping after the response: metrics labels, logging)
+					var data []byte
+					switch rng.Intn(5) {
+					case 0:
+						data = make([]byte, 1+rng.Intn(40))
+						rng.Read(data)
+					case 1:
+						data = append([]byte{0xff, 0xfe}, []byte("announce?key=value")...)
+					case 2:
+						data = make([]byte, 1+rng.Intn(30))
+						rng.Read(data)
+						data = append([]byte{'/'}, data...)
+					case 3:
+						data = make([]byte, rng.Intn(30))
+						rng.Read(data)
+						data = append([]byte("?k="), data...)
+					default:
+						data = []byte("announce\xc3\x28?a=%zz&b=%")
+					}
+					opts = append([]byte{2, byte(len(data))}, data...)
 					if rng.Intn(2) == 0 {
 						opts = append(opts, 0)
 					}
@@ -668,8 +706,17 @@ func e2eStream(o *Out, rng *rand.Rand, n int) {
 				}
 				reqs = append(reqs, eReq{T: t, URI: hx([]byte(u)), Remote: remotes[rng.Intn(len(remotes))]})
 			case r < 96:
+				pastClocks = append(pastClocks, clock)
 				clock += int64(rng.Intn(200)) * int64(time.Second)
+				if rng.Intn(3) == 0 {
+					clock += int64(10 * time.Minute)
+				}
 				reqs = append(reqs, eReq{T: "clock", Ns: clock})
+				if rng.Intn(2) == 0 {
+					// an expiry pass; the cutoff is never exactly a clock value (clocks are whole seconds)
+					cut := pastClocks[rng.Intn(len(pastClocks))] + 5
+					reqs = append(reqs, eReq{T: "gc", Ns: cut})
+				}
 			default:
 				reqs = append(reqs, eReq{T: "dump"})
 			}
